@@ -12,6 +12,8 @@ empty !deep(int v) { int[] loc = [v, v]; write('{'); !df(loc[1]); write('}'); }
 empty @y(int v) { write('y'); write(v); try { !truth_is_defeat(v == 1); write('Y'); } undo { write('U'); } }
 int f(int x) { g += 1; write('f'); write(x); return x * 2 + g; }
 int !val(int v) { write('v'); !truth_is_defeat(v == 2); return v * 3 + 1; }
+bool chk(int v) { g += 1; write('k'); return v == 1; }
+empty @ys(int v) { int pad = v + 1; int[] deep = [v, 9]; try { !truth_is_defeat(v == 1); write('Y'); } stop { write('S'); } write(pad); write(deep[1]); }
 """
 
 # non-nesting atoms
@@ -32,6 +34,8 @@ T_BASE = [
     "x = (!val(x) + f(1)) % 4;",
     "write(\"str\"); writeln(x);",
     "writeln(0 - x - 1);",
+    # the condition itself has effects (output, a global store): they belong to the timeline in which defeat is reached
+    "!truth_is_defeat(chk(x)); write(g);",
 ]
 
 
@@ -170,6 +174,10 @@ def family_H(tier):
     for s in seqs[:n * n]:
         cases.append((s, 'loop'))
         cases.append((s, 'func'))
+    # the function's own tries come after calls of other you-functions (and of itself) that contain tries of their own
+    for i in range(n):
+        for j in ([1, 2, 5, 11, 12, 19] if tier == 'quick' else range(n)):
+            cases.append(((i, j), 'call'))
     return [('H', cases[i:i + H_BATCH]) for i in range(0, len(cases), H_BATCH)]
 
 
@@ -188,6 +196,9 @@ def build_H(chunk):
             calls.append(f'write("#{k}:"); @t{k}(x); writeln();')
         elif shape == 'loop':
             funcs.append(f"empty @t{k}(int x) {{ for (int n = 0; n < 3; n += 1) {{ {blocks} x = (x + 1) % 3; }} write(x); }}")
+            calls.append(f'write("#{k}:"); @t{k}(x); writeln();')
+        elif shape == 'call':
+            funcs.append(f"empty @t{k}(int x) {{ int[] keep = [x, 5]; @ys(x); if (x == 0) {{ @t{k}(2); }} {blocks} write(x); write(keep[0]); write(keep[1]); }}")
             calls.append(f'write("#{k}:"); @t{k}(x); writeln();')
         else:
             funcs.append(f"empty @t{k}(int x) {{ {blocks} write(x); }}")
@@ -241,6 +252,12 @@ Q_OTHER = [
     ('byte', "byte b = (x + 97) is byte; gb = gb ?? b; write(gb); writeln();"),
     ('byte', "byte[] ys = ['a', 'b']; ys[1] = q(ys[0]) ?? 'b'; write(ys); writeln();"),
     ('int', "bool[] bs = [false, true]; bs[0] = p(x) ?? bs[1]; write(bs[0]); writeln();"),
+    # the right operand is always evaluated -- also when the left one is a compile-time constant and the right one
+    # has no call: its run-time faults are effects too
+    ('int', "writeln(3 ?? (12 / x));"), ('int', "writeln(6 ?? (12 % x));"), ('int', "int[] t = [6, 7]; writeln(6 ?? t[x]);"),
+    ('byte', "write('a' ?? \"ab\"[x]); writeln();"), ('bool', "writeln(true ?? (x / x == 1));"),
+    ('int', "const int K = 6; int[] t = [6, 7]; writeln(K ?? t[x] + 0); writeln((K + 1) ?? (7 / (x - 1)));"),
+    ('int', "const string S = \"ab\"; writeln(2 ?? S.length); writeln(98 ?? (S[x] is int));"),
 ]
 Q_ARGVS = [['0'], ['1'], ['3']]
 Q_BATCH = 10
